@@ -172,6 +172,9 @@ func runWire(wc *wireCase) (wireObs, []failure) {
 		panic("unknown wire op " + wc.Op)
 	}, anyErrClass)
 	ob := wireObs{out: out, consumed: mc.pos, depth: mc.maxDepth, reads: mc.reads}
+	if mc.maxDepth > maxDepthSeen {
+		maxDepthSeen = mc.maxDepth
+	}
 	var fails []failure
 	what := wc.Op
 	if wc.Op == "ops" {
@@ -200,7 +203,7 @@ func runWire(wc *wireCase) (wireObs, []failure) {
 	if out.Dur > 3*time.Second {
 		fails = append(fails, failure{"slow", fmt.Sprintf("%s ran %v on a %d-byte connection", what, out.Dur, len(data))})
 	}
-	if mc.maxDepth > 120 {
+	if mc.maxDepth > 64 {
 		fails = append(fails, failure{"recursion", fmt.Sprintf("%s: call stack %d frames deep while reading a %d-byte connection (one stack frame per wire frame?)", what, mc.maxDepth, len(data))})
 	}
 	if mc.reads > 4*len(data)+64 {
@@ -224,6 +227,8 @@ func wopTerm(wc *wireCase) string {
 	}
 	return "(WOps " + core.List(ops) + ")"
 }
+
+var maxDepthSeen int
 
 // stage: hostile sizes are tried smallest first; once a family has shown an
 // allocation failure the larger ones are skipped so that the harness itself
@@ -608,6 +613,11 @@ func genBlobs(c *core.Ctx) {
 
 func runBlob(b []byte) (*stream.Stream, outcome, []failure) {
 	var s *stream.Stream
+	// hand the parser a slice whose capacity equals its length, so that a slice
+	// expression reaching past the blob panics instead of reading spare capacity
+	exact := make([]byte, len(b))
+	copy(exact, b)
+	b = exact[:len(exact):len(exact)]
 	out := guarded(func() ([]byte, bool, error) {
 		var err error
 		s, err = stream.NewStreamWithCryptoState(&memConn{}, b)
